@@ -13,6 +13,7 @@ fn main() {
     let out: Vec<String> = match args[1].as_str() {
         "c11_accept" => profirust::fdl::__verif_native_active::c11_accept(&rest, seed),
         "c15_sched" => profirust::fdl::__verif_native_active::c15_sched(&rest, seed),
+        "c01_timing" => profirust::fdl::__verif_native_active::c01_timing(&rest, seed),
         "c12_gap" => profirust::fdl::__verif_native_active::c12_gap(&rest, seed),
         "c10_decode" => profirust::fdl::__verif_native_telegram::c10_decode(&rest, seed),
         "c10_first_byte" => profirust::fdl::__verif_native_telegram::c10_first_byte(&rest, seed),
